@@ -402,6 +402,14 @@ def run(tier):
                        '"the url"\nurl: String!) on SCALAR\nscalar S @specifiedBy(url: "u")\ninput I @oneOf { a: S }\n'
                        'type Query { f(i: I): Int }')):
         probes.append((f"override-probe:{nm}", build_schema(sdl_p)))
+    # deprecation with an empty / blank / default reason at every site (deprecated is `reason is not None`)
+    for nm, rs in (("empty", '""'), ("blank", '" "'), ("default", None)):
+        dep = "@deprecated" if rs is None else f"@deprecated(reason: {rs})"
+        probes.append((f"deprecation-probe:{nm}-reason", build_schema(
+            f"directive @d(x: Int {dep}, y: Int) {dep} on FIELD\n"
+            f"enum E {{ A {dep} B }}\ninput I {{ a: Int {dep} b: E = A {dep} c: Int }}\n"
+            f"type Query {{ f(a: I {dep}, b: Int): E {dep} g: Int }}",
+            experimental_directives_on_directive_definitions=True)))
     own_include = GraphQLDirective("include", [DirectiveLocation.FIELD, DirectiveLocation.QUERY], args={
         "if": GraphQLArgument(GraphQLNonNull(GraphQLBoolean), description="cond")}, description="own include",
         is_repeatable=True)
